@@ -110,7 +110,8 @@ fn brace_line(k: u8) -> String {
   B[k as usize % B.len()].to_string()
 }
 
-fn blanks(n: u8) -> String { " ".repeat(n as usize % 4) }
+/// 0-3: that many spaces (as before); 4-9: runs with tabs and a carriage return (everything `str::trim` removes)
+fn blanks(n: u8) -> String { match n { 0..=3 => " ".repeat(n as usize), 4 => "\t".into(), 5 => " \t".into(), 6 => "\t ".into(), 7 => "\t\t".into(), 8 => "\r".into(), 9 => " \r".into(), _ => " ".repeat(n as usize % 4) } }
 
 /// One rendered item: its text (one or more lines, no final newline) and, if it is a stand-alone include line that is outside every fence, its target.
 /// By construction: once an unclosed fence has been emitted everything after it is inside that fence, so later fences are switched to the other
@@ -281,7 +282,7 @@ impl Prop for C20 {
     let item = prop_oneof![
       4 => any::<u8>().prop_map(Item::Text),
       1 => Just(Item::Blank),
-      6 => (prop_oneof![8 => 0u8..NFILES as u8, 1 => NFILES as u8..NFILES as u8 + 6], 0u8..4, 0u8..4, any::<bool>()).prop_map(|(target, lead, trail, dot)| Item::Include { target, lead, trail, dot: dot && lead % 2 == 0 }),
+      6 => (prop_oneof![8 => 0u8..NFILES as u8, 1 => NFILES as u8..NFILES as u8 + 6], 0u8..8, 0u8..10, any::<bool>()).prop_map(|(target, lead, trail, dot)| Item::Include { target, lead, trail, dot: dot && lead % 2 == 0 }),
       2 => any::<u8>().prop_map(Item::Brace),
       3 => (any::<bool>(), 0u8..3, 0u8..4, 0u8..5, proptest::collection::vec(fitem, 0..4), prop_oneof![1 => Just(0u8), 3 => Just(1u8), 1 => Just(2u8), 1 => Just(3u8)]).prop_map(|(tilde, len, indent, info, body, close)| Item::Fence { tilde, len, indent, info, body, close }),
       1 => any::<bool>().prop_map(|tilde| Item::NotAFence { tilde }),
@@ -315,7 +316,7 @@ impl Prop for C20 {
   fn exhaustive_note(_t: Tier) -> Option<String> { None }
   fn rule() -> &'static str {
     "case = 4 files in up to 3 directories (., p, p/q), each a list of up to 6 items: text lines, blank lines, stand-alone include lines (target = any of the 4 files incl. itself, or a missing name; \
-     0-3 leading/trailing blanks; optional ./ prefix; path written relative to the including file, with ../ where needed), brace expressions and include look-alikes that are not stand-alone, \
+     0-3 leading/trailing blanks, or runs with tabs / a carriage return; optional ./ prefix; path written relative to the including file, with ../ where needed), brace expressions and include look-alikes that are not stand-alone, \
      backtick/tilde fences (opener length 3-5, indent 0-3, info string, body with include-like lines, shorter fence lines, other-marker lines, closers followed by text; closed with the same length, \
      longer, indented, or left unclosed), 4-blank-indented pseudo fences; with/without trailing newline. Fixed cases: all 512 include graphs over 3 files x 3 file-ending variants (text, closed fence, no trailing newline). \
      Oracle: a reference expander working on the item lists (not on text): Ok(text) must equal byte for byte; if only a cycle is reachable the error must say `Circular include detected`; if only missing \
